@@ -167,7 +167,7 @@ struct Run {
             else if (o == "mm") ret = exp->buffer_mm(vr::mm_in(op["r"]), st);
             else if (o == "wb") ret = exp->write_block();
             else if (o == "rot" && op.value("mismatch", false) && outkind == "fd") ret = rotate_mismatch(op.value("export", false));
-            else if (o == "rot") ret = rotate(op.value("export", false));
+            else if (o == "rot") ret = rotate(op.value("export", false), op.value("same", false));
             else if (o == "rotbad") {
                 // a rotation that cannot succeed (a descriptor that is not open / a name in a directory that does not
                 // exist); the call reports it.  Only used where outputs are compared, not modelled (C20 byte identity).
